@@ -484,6 +484,18 @@ func (e *Ev) evBufferMethod(x *ast.CallExpr, sel *ast.SelectorExpr) Val {
 		return r
 	case "Grow":
 		return VTuple{}
+	case "Next":
+		// Next(n) returns the next min(n, Len) unread bytes and drops them; a negative n panics
+		// (slice bounds out of range inside package bytes)
+		e.fx.trusted["(*bytes.Buffer).Next(n) drops and returns the first min(n, Len) unread bytes and panics for n < 0 (built-in model)"] = true
+		n := e.intOf(e.ev(x.Args[0]), x.Args[0])
+		e.safety("index", "bufnext", x.Pos(), sLe("0", n), "Buffer.Next is not called with a negative count")
+		r := e.fx.freshStr("bufstr")
+		e.fx.assume(e.st.pc, sAnd(sEq(r.L, b.Len), sEq(e.fx.seqOf(r), b.Seq)))
+		m := e.fx.name(sortInt, "nx", sIte(sLe(n, b.Len), n, b.Len))
+		rest := VStr{B: r.B, O: e.fx.name(sortInt, "so", sAdd(r.O, m)), L: e.fx.name(sortInt, "sl", sSub(b.Len, m))}
+		e.st.env[obj] = VBuf{Seq: e.fx.name(sortSeq, "bq", e.fx.seqOf(rest)), Len: rest.L}
+		return VStr{B: r.B, O: r.O, L: m}
 	}
 	e.unsupp(x, "bytes.Buffer method %s is not modelled", sel.Sel.Name)
 	return nil
@@ -666,7 +678,19 @@ func (e *Ev) callFunc(x *ast.CallExpr, fn *types.Func, recv Val, hasRecv bool) V
 		pt := sig.Params().At(i).Type()
 		if sig.Variadic() && i == np-1 {
 			if x.Ellipsis.IsValid() {
-				args = append(args, e.ev(x.Args[i]))
+				av := e.ev(x.Args[i])
+				if _, isBuf := av.(VBuf); isBuf && !e.contract {
+					// a variable of type *bytes.Buffer (modelled as the buffer itself) handed on to a
+					// callee: passed by reference, so the callee's effect on it is seen afterwards
+					if id, ok := unparen(x.Args[i]).(*ast.Ident); ok {
+						if obj := e.info.Uses[id]; obj != nil {
+							if _, isPtr := obj.Type().(*types.Pointer); isPtr {
+								av = VBufPtr{obj}
+							}
+						}
+					}
+				}
+				args = append(args, av)
 			} else {
 				args = append(args, e.packVariadic(x.Args[i:], pt, x))
 			}
@@ -767,6 +791,18 @@ func (e *Ev) applyContract(x ast.Node, con *Contract, fn *types.Func, recv Val, 
 		fx.obligeN("pre", "pre."+shortKey(con.Key)+"."+lbl+"@call", x.Pos(), e.st.pc, t, "precondition of "+con.Key+": "+rq.Text)
 	}
 	// recursion: the callee's variant must be smaller than the caller's at entry
+	if g := con.Options["recgroup"]; g != "" && fx.con != nil && fx.con.Options["recgroup"] == g && con.Key != fx.key {
+		// mutual recursion inside a declared group: the callee's variant at the call must be below the
+		// caller's variant at entry (both variants are over the same well-founded order, the naturals)
+		if con.Decreases == nil || fx.con.Decreases == nil {
+			fx.obligeN("decreases", "recursion.decreases@call", x.Pos(), e.st.pc, "false", "call inside a recursion group without a decreases clause")
+		} else {
+			m1 := preEv.intOf(preEv.ev(con.Decreases.Expr), con.Decreases.Expr)
+			ce := fx.clauseEv(fx.entry, fx.decl.Body.Lbrace+1, nil)
+			m0 := ce.intOf(ce.ev(fx.con.Decreases.Expr), fx.con.Decreases.Expr)
+			fx.obligeN("decreases", "recursion.decreases@call", x.Pos(), e.st.pc, sAnd(sLe("0", m1), sLt(m1, m0)), "the callee's variant at the call is below the caller's variant at entry: "+con.Decreases.Text+" < "+fx.con.Decreases.Text)
+		}
+	}
 	if con.Key == fx.key {
 		if con.Decreases == nil {
 			fx.obligeN("decreases", "recursion.decreases@call", x.Pos(), e.st.pc, "false", "recursive call without a decreases clause")
